@@ -486,6 +486,13 @@ CANARIES = [
      ['vhdx'], [['giant', [], [], False], ['fixed-4096', 'F4096', [], False], ['fixed-65536', 'F65536', [], False]], True),
     ('-', {'gen': 'vhdx', 'params': {'meta_off': 256 * 1024, 'item_off': 40, 'n_pad_meta': 3, 'size': 12345678}},
      ['vhdx'], [['giant', [], [], False], ['fixed-17', 'F17', [], False], ['fixed-4096', 'F4096', [], False]], True),
+    ('-', {'gen': 'vhdx', 'params': {'meta_off': 256 * 1024, 'item_off': 40, 'n_pad_meta': 3, 'size': 77, 'tail': 200000}},
+     ['vhdx'], [['giant', [], [], False], ['fixed-512', 'F512', [], False], ['fixed-65536', 'F65536', [], False]], True),
+    # D13: invalid metadata signature, enough stream behind it for a large read to fill the whole region
+    ('-', {'gen': 'vhdx', 'params': {'meta_off': 256 * 1024, 'meta_sig': 'metadatx', 'tail': 200000}},
+     ['vhdx'], [['giant', [], [], False], ['fixed-512', 'F512', [], False], ['fixed-4096', 'F4096', [], False]], True),
+    ('-', {'gen': 'vhdx', 'params': {'meta_off': 1024 * 1024, 'meta_sig': 'Metadata', 'tail': 70000}},
+     ['vhdx'], [['giant', [], [], False], ['fixed-65536', 'F65536', [], False], ['fixed-17', 'F17', [], False]], True),
     ('-', {'gen': 'vhdx', 'params': {'meta_off': 100, 'item_off': 0x10000, 'size': 5}},
      ['vhdx'], [['giant', [], [], False], ['fixed-512', 'F512', [], False]], True),
     # F3: footer announced on a stream of 1536..1598 bytes
@@ -529,6 +536,8 @@ def run(ctx):
             spec = ic.unstructured(rng)
         elif k > 0.97:
             spec = ic.vhdx_backward(rng)
+        elif k > 0.94:
+            spec = ic.vhdx_corrupt(rng)
         else:
             spec = ic.wellformed(rng, fmt, small=ctx.quick or rng.random() < 0.8)
         seed_for_case = rng.getrandbits(48)
@@ -550,7 +559,7 @@ def run(ctx):
         if other not in insps and crng.random() < 0.5:
             insps.append(other)
         case = {'kind': 'stream', 'spec': spec, 'inspectors': insps, 'schedules': scheds,
-                'wrapper': crng.random() < 0.45, 'structured': spec['gen'] != 'raw'}
+                'wrapper': crng.random() < (0.45 if k <= 0.94 else 0.9), 'structured': spec['gen'] != 'raw'}
         ctx.h('format x stream class', '%s/%s' % (spec['gen'], klass))
         ctx.sample('stream/%s' % spec['gen'], {'spec': spec, 'inspectors': insps,
                                                 'schedule_classes': [s[0] for s in scheds]})
